@@ -8,7 +8,7 @@ EXPLANATION = ("For every non-trivial impl of gix_pack::cache::DecodeEntry (the 
                "equality with the stored entry's field of the same name; in put() they are stored under the key / into fields pack_id and offset respectively. "
                "In data::File::resolve_deltas every cache.get/put passes self.id and a `data_offset` of an entry. The object cache is keyed by the full object id. "
                "In resolve_deltas every relocation copy after the swapped-buffer delta loop is control-dependent on a `% 2` test of the chain length. "
-               "Eviction accounting and the remaining delta-chain buffer arithmetic are not decided.")
+               "set_vec_to_slice clears the output buffer on every path to a successful return. Eviction accounting and the remaining delta-chain buffer arithmetic are not decided.")
 
 
 def params_in(fl, op):
